@@ -20,70 +20,73 @@ VARIABLE l
 vars == <<l>>
 
 Fm(ev) == TypeFmt(ev.t)
-Arg(ev, i) == QSeq(ev.a[i])
+DW(f, w) == ValW(f, w)
+DSeq(f, ws) == [i \in 1..Len(ws) |-> ValW(f, ws[i])]
+Arg(ev, i) == DSeq(Fm(ev), ev.a[i])
 NArg(ev) == Len(ev.a)
-Res(ev) == QSeq(ev.r)
-LOf(ev) == Len(ev.a[1])
+Res(ev) == DSeq(Fm(ev), ev.r)
 MagLim(f) == IF f = F64 THEN 100 ELSE 40
 MagOkW(f, w) == LET x == Fields(f, w) IN IsFinite(f, x) /\ (IsZero(f, x) \/ LET t == DTopExp(Val(f, x)) IN t >= -MagLim(f) /\ t <= MagLim(f))
 Dom(ev) == \A i \in 1..NArg(ev) : \A j \in 1..Len(ev.a[i]) : MagOkW(Fm(ev), ev.a[i][j])
-FinSeq(ws) == AllFin(ws)
+FinSeq(ev, ws) == \A i \in 1..Len(ws) : IsFinite(Fm(ev), Fields(Fm(ev), ws[i]))
 IsZeroW(f, w) == IsZero(f, Fields(f, w))
 IsNaNW(f, w) == IsNaN(f, Fields(f, w))
 FlipW(w) == [i \in 1..Len(w) |-> IF i = Len(w) THEN (w[i] + 32768) % 65536 ELSE w[i]]
-AbsW(w) == [i \in 1..Len(w) |-> IF i = Len(w) THEN w[i] % 32768 ELSE w[i]]
 FlipV(ws) == [i \in 1..Len(ws) |-> FlipW(ws[i])]
 \* squared norms must stay in the normal range with room to spare
-NormRangeOk(s, f) == QIsZero(s) \/ (LET lim == QFromD(DPow2(IF f = F64 THEN 900 ELSE 100)) IN QLe(s, lim) /\ QLe(QOne, QMul(s, lim)))
+NormRangeOk(s, f) == DIsZero(s) \/ (LET t == DTopExp(s) lim == IF f = F64 THEN 900 ELSE 100 IN t >= -lim /\ t <= lim)
 \* all components are integers of magnitude <= 4 (every product and sum below is then exact in float and double)
-SmallIntQ(q) == \E k \in -4..4 : QEq(q, QI(k))
-SmallIntV(v) == \A i \in 1..Len(v) : SmallIntQ(v[i])
-QuarterQ(q) == \E m \in 1..16 : QEq(q, QF(m, 4))
+SmallIntD(q) == \E k \in -4..4 : DEq(q, DFromInt(k))
+SmallIntV(v) == \A i \in 1..Len(v) : SmallIntD(v[i])
+QuarterD(q) == \E m \in 1..16 : DEq(q, DMk(FALSE, <<m>>, -2))
 
 \* in the domain => finite result => the predicate
-Judge(ev, ok) == IF ~Dom(ev) THEN VSkip ELSE IF ~FinSeq(ev.r) THEN VBad ELSE VBool(ok)
-JudgeIf(ev, dom, ok) == IF ~Dom(ev) THEN VSkip ELSE IF ~dom THEN VSkip ELSE IF ~FinSeq(ev.r) THEN VBad ELSE VBool(ok)
+Judge(ev, ok) == IF ~Dom(ev) THEN VSkip ELSE IF ~FinSeq(ev, ev.r) THEN VBad ELSE VBool(ok)
+JudgeIf(ev, dom, ok) == IF ~Dom(ev) THEN VSkip ELSE IF ~dom THEN VSkip ELSE IF ~FinSeq(ev, ev.r) THEN VBad ELSE VBool(ok)
+Norm2(v) == DvDot(v, v)
 
 ----------------------------------------------------------------------------
-VDotEv(ev) == Judge(ev, GDotOk(Res(ev)[1], Arg(ev, 1), Arg(ev, 2), Fm(ev)))
-VLength(ev) == JudgeIf(ev, NormRangeOk(GLength2(Arg(ev, 1)), Fm(ev)), GLengthOk(Res(ev)[1], Arg(ev, 1), Fm(ev)))
-VDistance(ev) == JudgeIf(ev, NormRangeOk(GDistance2(Arg(ev, 1), Arg(ev, 2)), Fm(ev)), GDistanceOk(Res(ev)[1], Arg(ev, 1), Arg(ev, 2), Fm(ev)))
-VLength2(ev) == Judge(ev, GLength2Ok(Res(ev)[1], Arg(ev, 1), Fm(ev)))
-VDistance2(ev) == JudgeIf(ev, NormRangeOk(GDistance2(Arg(ev, 1), Arg(ev, 2)), Fm(ev)), GDistance2Ok(Res(ev)[1], Arg(ev, 1), Arg(ev, 2), Fm(ev)))
+VDotEv(ev) == Judge(ev, JDotOk(Res(ev)[1], Arg(ev, 1), Arg(ev, 2), Fm(ev)))
+VLength(ev) == JudgeIf(ev, NormRangeOk(Norm2(Arg(ev, 1)), Fm(ev)), JLengthOk(Res(ev)[1], Arg(ev, 1), Fm(ev)))
+VDistance(ev) == JudgeIf(ev, NormRangeOk(Norm2(DvSub(Arg(ev, 1), Arg(ev, 2))), Fm(ev)), JDistanceOk(Res(ev)[1], Arg(ev, 1), Arg(ev, 2), Fm(ev)))
+VLength2(ev) == Judge(ev, JLength2Ok(Res(ev)[1], Arg(ev, 1), Fm(ev)))
+VDistance2(ev) == JudgeIf(ev, NormRangeOk(Norm2(DvSub(Arg(ev, 1), Arg(ev, 2))), Fm(ev)), JDistance2Ok(Res(ev)[1], Arg(ev, 1), Arg(ev, 2), Fm(ev)))
 
 VCrossEv(ev) == LET a == Arg(ev, 1) b == Arg(ev, 2) r == Res(ev) f == Fm(ev)
-                IN IF ~Dom(ev) THEN VSkip ELSE IF ~(FinSeq(ev.r) /\ FinSeq(ev.r2)) THEN VBad
-                   ELSE VBool(GCrossFormulaOk(r, a, b, f) /\ GCrossOrthOk(r, a, b, f) /\ GAntiOk(r, QSeq(ev.r2)))
+                IN IF ~Dom(ev) THEN VSkip ELSE IF ~(FinSeq(ev, ev.r) /\ FinSeq(ev, ev.r2)) THEN VBad
+                   ELSE VBool(JCrossFormulaOk(r, a, b, f) /\ JCrossOrthOk(r, a, b, f) /\ JAntiOk(r, DSeq(f, ev.r2)))
 VCross2Ev(ev) == LET a == Arg(ev, 1) b == Arg(ev, 2) r == Res(ev) f == Fm(ev)
-                 IN IF ~Dom(ev) THEN VSkip ELSE IF ~(FinSeq(ev.r) /\ FinSeq(ev.r2)) THEN VBad
-                    ELSE VBool(GCross2Ok(r[1], a, b, f) /\ GAntiOk(r, QSeq(ev.r2)))
-VMixed(ev) == Judge(ev, GMixedOk(Res(ev)[1], Arg(ev, 1), Arg(ev, 2), Arg(ev, 3), Fm(ev)))
+                 IN IF ~Dom(ev) THEN VSkip ELSE IF ~(FinSeq(ev, ev.r) /\ FinSeq(ev, ev.r2)) THEN VBad
+                    ELSE VBool(JCross2Ok(r[1], a, b, f) /\ JAntiOk(r, DSeq(f, ev.r2)))
+VMixed(ev) == Judge(ev, JMixedOk(Res(ev)[1], Arg(ev, 1), Arg(ev, 2), Arg(ev, 3), Fm(ev)))
 
-VNormalize(ev) == LET v == Arg(ev, 1) IN JudgeIf(ev, ~VIsZero(v) /\ NormRangeOk(GLength2(v), Fm(ev)), GNormalizeOk(Res(ev), v, Fm(ev)))
+VNormalize(ev) == LET v == Arg(ev, 1) IN JudgeIf(ev, ~DvIsZero(v) /\ NormRangeOk(Norm2(v), Fm(ev)), JNormalizeOk(Res(ev), v, Fm(ev)))
 
-\* faceforward(N, I, Nref): N bit for bit when dot(Nref, I) < 0, otherwise N with every sign bit flipped
+\* faceforward(N, I, Nref): N bit for bit when dot(Nref, I) < 0, otherwise -N (as values: GLM computes 0 - N, so a zero
+\* component keeps the sign +0)
 VFaceforward(ev) ==
-    LET N == Arg(ev, 1) I == Arg(ev, 2) Nref == Arg(ev, 3) f == Fm(ev) d == VDot(Nref, I)
+    LET I == Arg(ev, 2) Nref == Arg(ev, 3) f == Fm(ev) d == DvDot(Nref, I)
     IN IF ~Dom(ev) THEN VSkip
-       ELSE IF ~((SmallIntV(I) /\ SmallIntV(Nref)) \/ GDotSignCertain(Nref, I, f)) THEN VSkip
-       ELSE VBool(ev.r = (IF QSign(d) < 0 THEN ev.a[1] ELSE FlipV(ev.a[1])))
+       ELSE IF ~((SmallIntV(I) /\ SmallIntV(Nref)) \/ JDotSignCertain(Nref, I, f)) THEN VSkip
+       ELSE IF DSign(d) < 0 THEN VBool(ev.r = ev.a[1])
+       ELSE VBool(FinSeq(ev, ev.r) /\ JAntiOk(Arg(ev, 1), Res(ev)))
 
 VReflect(ev) ==
-    LET I == Arg(ev, 1) N == Arg(ev, 2) r == Res(ev) f == Fm(ev)
-    IN IF ~Dom(ev) THEN VSkip ELSE IF ~(FinSeq(ev.r) /\ FinSeq(ev.rr)) THEN VBad
-       ELSE VBool(/\ GReflectOk(r, I, N, f)
-                  /\ GReflectOk(QSeq(ev.rr), r, N, f)
-                  /\ GIsUnit(N, f) => GReflectIsometryOk(r, I, N, f) /\ GReflectInvolutionOk(QSeq(ev.rr), I, N, f))
+    LET I == Arg(ev, 1) N == Arg(ev, 2) r == Res(ev) f == Fm(ev) rr == DSeq(f, ev.rr)
+    IN IF ~Dom(ev) THEN VSkip ELSE IF ~(FinSeq(ev, ev.r) /\ FinSeq(ev, ev.rr)) THEN VBad
+       ELSE VBool(/\ JReflectOk(r, I, N, f)
+                  /\ JReflectOk(rr, r, N, f)
+                  /\ JIsUnit(N, 4, f) => JReflectIsometryOk(r, I, N, f) /\ JReflectInvolutionOk(rr, I, N, f))
 
-\* refract(I, N, eta)
+\* refract(I, N, eta): exactly the zero vector (either sign of zero) on total internal reflection
 VRefract(ev) ==
     LET I == Arg(ev, 1) N == Arg(ev, 2) eta == Arg(ev, 3)[1] f == Fm(ev) r == Res(ev)
-        exact == SmallIntV(I) /\ SmallIntV(N) /\ QuarterQ(eta)
-        region == IF exact THEN (IF GIsTIR(I, N, eta) THEN "tir" ELSE "refr") ELSE GRefractRegion(I, N, eta, f)
+        exact == SmallIntV(I) /\ SmallIntV(N) /\ QuarterD(eta)
+        region == IF exact THEN (IF DSign(JRefractK(I, N, eta)) < 0 THEN "tir" ELSE "refr") ELSE JRefractRegion(I, N, eta, f)
         zero == \A i \in 1..Len(ev.r) : IsZeroW(f, ev.r[i])
         scalarNaN == ev.n = 0 /\ IsNaNW(f, ev.r[1])
-        formula == FinSeq(ev.r) /\ GRefractFormulaOk(r, I, N, eta, f)
-    IN IF ~Dom(ev) \/ QSign(eta) <= 0 \/ VIsZero(N) THEN VSkip
+        formula == FinSeq(ev, ev.r) /\ JRefractFormulaOk(r, I, N, eta, f)
+    IN IF ~Dom(ev) \/ DSign(eta) <= 0 \/ DvIsZero(N) THEN VSkip
        ELSE CASE region = "tir"  -> IF zero THEN VOk ELSE IF scalarNaN THEN VKnown("KD-C12-scalar-refract-tir") ELSE VBad
               [] region = "refr" -> VBool(formula)
               [] OTHER           -> IF zero \/ formula THEN VOk ELSE IF scalarNaN THEN VKnown("KD-C12-scalar-refract-tir") ELSE VBad
@@ -91,46 +94,42 @@ VRefract(ev) ==
 \* gtx/norm
 VNorms(ev) ==
     LET f == Fm(ev) two == NArg(ev) = 2
-        v == IF two THEN VSub(Arg(ev, 2), Arg(ev, 1)) ELSE Arg(ev, 1)
+        v == IF two THEN DvSub(Arg(ev, 2), Arg(ev, 1)) ELSE Arg(ev, 1)
         r == Res(ev)[1]
-    IN CASE ev.op = "l1Norm" -> Judge(ev, NearRel(r, GL1(v), IF two THEN 3 ELSE 2, GL1(v), f))
-         [] ev.op = "l2Norm" -> JudgeIf(ev, NormRangeOk(GLength2(v), f), IF two THEN GDistanceOk(r, Arg(ev, 1), Arg(ev, 2), f) ELSE GLengthOk(r, v, f))
-         [] ev.op = "lMaxNorm" -> Judge(ev, IF two THEN NearRel(r, GLMax(v), 1, GLMax(v), f) ELSE QEq(r, GLMax(v)))
+    IN CASE ev.op = "l1Norm" -> Judge(ev, DNearRel(r, DvNorm1(v), IF two THEN 3 ELSE 2, DvNorm1(v), f))
+         [] ev.op = "l2Norm" -> JudgeIf(ev, NormRangeOk(Norm2(v), f), IF two THEN JDistanceOk(r, Arg(ev, 1), Arg(ev, 2), f) ELSE JLengthOk(r, v, f))
+         [] ev.op = "lMaxNorm" -> Judge(ev, IF two THEN DNearRel(r, DMaxAbs(v), 1, DMaxAbs(v), f) ELSE DEq(r, DMaxAbs(v)))
          [] ev.op = "lxNorm" ->
-              LET modest == \A i \in 1..3 : QIsZero(v[i]) \/ (QLe(QF(1, 16), QAbs(v[i])) /\ QLe(QAbs(v[i]), QI(16)))
-              IN JudgeIf(ev, ev.d >= 1 /\ ev.d <= 4 /\ modest, GLxOk(r, v, ev.d, f))
+              LET modest == \A i \in 1..3 : DIsZero(v[i]) \/ (DTopExp(v[i]) >= -4 /\ DTopExp(v[i]) < 4)
+              IN JudgeIf(ev, ev.d >= 1 /\ ev.d <= 4 /\ modest, JLxOk(r, v, ev.d, f))
 
-VProj(ev) == LET x == Arg(ev, 1) n == Arg(ev, 2) IN JudgeIf(ev, ~VIsZero(n), GProjOk(Res(ev), x, n, Fm(ev)))
-VPerp(ev) == LET x == Arg(ev, 1) n == Arg(ev, 2) IN JudgeIf(ev, ~VIsZero(n), GPerpOk(Res(ev), x, n, Fm(ev)))
+VProj(ev) == LET x == Arg(ev, 1) n == Arg(ev, 2) IN JudgeIf(ev, ~DvIsZero(n), JProjOk(Res(ev), x, n, Fm(ev)))
+VPerp(ev) == LET x == Arg(ev, 1) n == Arg(ev, 2) IN JudgeIf(ev, ~DvIsZero(n), JPerpOk(Res(ev), x, n, Fm(ev)))
 
-\* the direction w is resolved by the arithmetic: |w|^2 >= 4 |e|^2 and inside the normal range
-Resolved(w, e, f) == ~VIsZero(w) /\ QLe(QMulInt(VDot(e, e), 4), VDot(w, w)) /\ NormRangeOk(VDot(w, w), f)
-VOrtho2(ev) == LET x == Arg(ev, 1) y == Arg(ev, 2) f == Fm(ev)
-               IN JudgeIf(ev, Resolved(GOrtho2Dir(x, y), GOrtho2Err(x, y, f), f), GOrtho2Ok(Res(ev), x, y, f))
+VOrtho2(ev) == LET x == Arg(ev, 1) y == Arg(ev, 2) f == Fm(ev) w == JOrtho2Dir(x, y)
+               IN JudgeIf(ev, JResolved(w, JOrtho2Err(x, y, f)) /\ NormRangeOk(Norm2(w), f), JOrtho2Ok(Res(ev), x, y, f))
 VOrtho3(ev) ==
     LET m == Arg(ev, 1) r == Res(ev) f == Fm(ev)
         col(s, k) == <<s[3 * k + 1], s[3 * k + 2], s[3 * k + 3]>>
         m0 == col(m, 0) m1 == col(m, 1) m2 == col(m, 2)
-    IN IF ~Dom(ev) \/ VIsZero(m0) \/ ~NormRangeOk(VDot(m0, m0), f) THEN VSkip
-       ELSE IF ~FinSeq(ev.r) THEN (IF GOrtho3WellCond(m0, m1, m2) THEN VBad ELSE VSkip)
-       ELSE VBool(GOrtho3Ok(col(r, 0), col(r, 1), col(r, 2), m0, m1, m2, f))
+    IN IF ~Dom(ev) \/ DvIsZero(m0) \/ ~NormRangeOk(Norm2(m0), f) THEN VSkip
+       ELSE IF ~FinSeq(ev, ev.r) THEN (IF JOrtho3WellCond(m0, m1, m2) THEN VBad ELSE VSkip)
+       ELSE VBool(JOrtho3Ok(col(r, 0), col(r, 1), col(r, 2), m0, m1, m2, f))
 VTriangle(ev) ==
-    LET p1 == Arg(ev, 1) p2 == Arg(ev, 2) p3 == Arg(ev, 3) f == Fm(ev)
-        a == VSub(p1, p2) b == VSub(p1, p3) s == GCrossAbs(a, b)
-    IN JudgeIf(ev, Resolved(VCross(a, b), [i \in 1..3 |-> GTol(3, s[i], f)], f), GTriOk(Res(ev), p1, p2, p3, f))
+    LET p1 == Arg(ev, 1) p2 == Arg(ev, 2) p3 == Arg(ev, 3) f == Fm(ev) w == JTriDir(p1, p2, p3)
+    IN JudgeIf(ev, JResolved(w, JTriErr(p1, p2, p3, f)) /\ NormRangeOk(Norm2(w), f), JTriOk(Res(ev), p1, p2, p3, f))
 
-\* closestPointOnLine(p, a, b)
+\* closestPointOnLine(p, a, b): a or b bit for bit outside the segment, the foot of the perpendicular inside
 VClosest(ev) ==
     LET p == Arg(ev, 1) a == Arg(ev, 2) b == Arg(ev, 3) f == Fm(ev) r == Res(ev)
-        t == GClosestT(p, a, b) tau == GClosestTau(p, a, b, f)
-    IN JudgeIf(ev, ~VIsZero(VSub(b, a)) /\ NormRangeOk(GDistance2(a, b), f),
-               \/ QLe(t, tau) /\ ev.r = ev.a[2]
-               \/ QLe(QSub(QOne, tau), t) /\ ev.r = ev.a[3]
-               \/ QLe(QNeg(tau), t) /\ QLe(t, QAdd(QOne, tau)) /\ GClosestValueOk(r, p, a, b, f))
+    IN JudgeIf(ev, ~DvIsZero(DvSub(b, a)) /\ NormRangeOk(JClosestDen(a, b), f),
+               \/ JClosestMayA(p, a, b, f) /\ ev.r = ev.a[2]
+               \/ JClosestMayB(p, a, b, f) /\ ev.r = ev.a[3]
+               \/ JClosestMayMid(p, a, b, f) /\ JClosestValueOk(r, p, a, b, f))
 
 \* angles (documented precondition: unit vectors)
-UnitArgs(ev, k) == \A i \in 1..k : QNear(VDot(Arg(ev, i), Arg(ev, i)), QOne, GTol(8, QOne, Fm(ev)))
-AngleValOk(w, ev) == FinW(w) /\ GAngleOk(ValW(Fm(ev), w), Arg(ev, 1), Arg(ev, 2), Fm(ev))
+UnitArgs(ev, k) == \A i \in 1..k : JIsUnit(Arg(ev, i), 8, Fm(ev))
+AngleValOk(w, ev) == IsFinite(Fm(ev), Fields(Fm(ev), w)) /\ JAngleOk(ValW(Fm(ev), w), Arg(ev, 1), Arg(ev, 2), Fm(ev))
 VAngle(ev) == JudgeIf(ev, UnitArgs(ev, 2), ev.r = ev.r2 /\ AngleValOk(ev.r[1], ev))
 \* sign: "pos" -> the angle itself, "neg" -> its negation, "any" -> the orientation is zero or within rounding of zero
 OrientedOk(ev, sgn) == /\ AngleValOk(ev.ang[1], ev)
@@ -138,13 +137,13 @@ OrientedOk(ev, sgn) == /\ AngleValOk(ev.ang[1], ev)
                             [] sgn = "neg" -> ev.r = FlipV(ev.ang)
                             [] OTHER -> ev.r = ev.ang \/ ev.r = FlipV(ev.ang)
 VOriented2(ev) ==
-    LET x == Arg(ev, 1) y == Arg(ev, 2) f == Fm(ev) c == GCross2(x, y)
-        certain == QLt(GTol(GCrossK, QAdd(QAbs(QMul(x[1], y[2])), QAbs(QMul(y[1], x[2]))), f), QAbs(c))
-    IN JudgeIf(ev, UnitArgs(ev, 2), OrientedOk(ev, IF ~certain THEN "any" ELSE IF QSign(c) > 0 THEN "pos" ELSE "neg"))
+    LET x == Arg(ev, 1) y == Arg(ev, 2) f == Fm(ev) c == JCross2(x, y)
+        certain == DLt(DTol(JCrossK, JCross2Abs(x, y), f), DAbs(c))
+    IN JudgeIf(ev, UnitArgs(ev, 2), OrientedOk(ev, IF ~certain THEN "any" ELSE IF DSign(c) > 0 THEN "pos" ELSE "neg"))
 VOriented3(ev) ==
-    LET x == Arg(ev, 1) y == Arg(ev, 2) ref == Arg(ev, 3) f == Fm(ev) t == GMixed(x, y, ref)
-        certain == QLt(GTol(5, VDot(GCrossAbs(x, y), GAbsV(ref)), f), QAbs(t))
-    IN JudgeIf(ev, UnitArgs(ev, 2), OrientedOk(ev, IF ~certain THEN "any" ELSE IF QSign(t) > 0 THEN "pos" ELSE "neg"))
+    LET x == Arg(ev, 1) y == Arg(ev, 2) ref == Arg(ev, 3) f == Fm(ev) t == JMixed(x, y, ref)
+        certain == DLt(DTol(5, JMixedAbs(x, y, ref), f), DAbs(t))
+    IN JudgeIf(ev, UnitArgs(ev, 2), OrientedOk(ev, IF ~certain THEN "any" ELSE IF DSign(t) > 0 THEN "pos" ELSE "neg"))
 
 Verdict(ev) ==
     CASE ev.op = "dot" -> VDotEv(ev)
